@@ -194,11 +194,15 @@ def run_case(case):
         try:
             out = run.run(th, mkobs({name: [dict(x=x, Q2=Q2)]}))
             viol.append(dict(sig=f"tmc-no-rejection|{kind}|{MODES[mode]}", what=f"{name} TMC={mode}: x={x!r} has xi={xi!r} below the lowest node {nodes[0]!r} but the run returned a result"))
-        except ValueError as e:
-            nontrivial.add(cell)
-            sample = dict(x=x, xi=xi, lowest_node=nodes[0], error=str(e)[:80])
-        except Exception as e:
-            viol.append(dict(sig=f"tmc-bad-rejection|{kind}|{run.exc_sig(e)}", what=f"{name} TMC={mode}: xi below the grid ends in {type(e).__name__}: {str(e)[:100]} instead of an explicit error"))
+        except Exception as e:  # noqa: BLE001 - classified: any explicit 'raise <Error>("message")' is a rejection, whatever its class
+            from .c16 import classify_exception
+
+            kind_, sig_, text_ = classify_exception(e)
+            if kind_ == "rejected":
+                nontrivial.add(cell)
+                sample = dict(x=x, xi=xi, lowest_node=nodes[0], error=str(e)[:80])
+            else:
+                viol.append(dict(sig=f"tmc-bad-rejection|{kind}|{sig_}", what=f"{name} TMC={mode}: xi below the grid ends in an internal failure {text_} instead of an explicit error"))
         return dict(violations=viol, compared=compared, nontrivial=sorted(nontrivial), classes=sorted(classes), sample=sample)
 
     pts = [dict(x=p["x"], Q2=p["Q2"]) for p in case["points"]]
